@@ -102,6 +102,7 @@ type spyTree struct {
 	inner  *common.SimpleURLTree
 	silent int // convergences that happened inside Insert (indication discarded)
 	loud   int // convergences reported through InsertWithConvergenceIndication
+	miss   int // lookups that did not find the exact URL (no match, or only a wildcard)
 }
 
 func (s *spyTree) Insert(url string, v *common.EmptyStruct) error {
@@ -125,7 +126,14 @@ func (s *spyTree) InsertWithConvergenceIndication(url string, v *common.EmptyStr
 }
 
 func (s *spyTree) Lookup(url string) urltree.LookupResult[common.EmptyStruct] {
-	return s.inner.Lookup(url)
+	res := s.inner.Lookup(url)
+	// every Lookup the plugin makes follows an Insert of the same URL, so the
+	// exact node must be found; falling back to "no match" or to a wildcard
+	// means the terminal node has no value
+	if !res.Match || (strings.HasSuffix(res.NormalizedURL, "*") && !strings.HasSuffix(strings.Trim(url, "./"), "*")) {
+		s.miss++
+	}
+	return res
 }
 
 type runInfo struct {
@@ -134,6 +142,7 @@ type runInfo struct {
 	restarts int // restarts performed while the state was non-empty
 	silent   int // convergences of the tree inside NormalizeURL (not reported to ConvergeAggregation)
 	loud     int // convergences reported to ConvergeAggregation
+	miss     int // NormalizeURL lookups that missed the URL just inserted
 }
 
 // runPure applies GetUpdatedAggregations batch by batch (what Run does between
@@ -174,7 +183,7 @@ func runPure(c kase, cuts []int) (discovery.Agg, runInfo, error) {
 			}
 		}
 	}
-	info.silent, info.loud = tree.silent, tree.loud
+	info.silent, info.loud, info.miss = tree.silent, tree.loud, tree.miss
 	return agg, info, nil
 }
 
@@ -224,7 +233,7 @@ func runStateful(c kase, cuts []int, restart []bool, dir string, check func(a *d
 			if err := st.InitializeState(); err != nil {
 				return nil, info, fmt.Errorf("InitializeState after restart: %w", err)
 			}
-			info.silent, info.loud = info.silent+tree.silent, info.loud+tree.loud
+			info.silent, info.loud, info.miss = info.silent+tree.silent, info.loud+tree.loud, info.miss+tree.miss
 			if tree, err = buildTree(c); err != nil {
 				return nil, info, err
 			}
@@ -240,7 +249,7 @@ func runStateful(c kase, cuts []int, restart []bool, dir string, check func(a *d
 			info.batches++
 		}
 	}
-	info.silent, info.loud = info.silent+tree.silent, info.loud+tree.loud
+	info.silent, info.loud, info.miss = info.silent+tree.silent, info.loud+tree.loud, info.miss+tree.miss
 	final, err := readState(path)
 	if err != nil {
 		return nil, info, err
@@ -869,6 +878,7 @@ func genCase(t *rapid.T, g genOpts) kase {
 type model struct {
 	agg    discovery.Agg
 	silent int
+	miss   int
 	ek, ck map[int]string // record index → endpoint key URL in the endpoint table / in its consumer's table
 }
 
@@ -977,7 +987,7 @@ func modelRun(c kase, cuts []int) (model, error) {
 		}
 		seen = append(seen, idx...)
 	}
-	m := model{silent: tree.silent, ek: ek, ck: ck}
+	m := model{silent: tree.silent, miss: tree.miss, ek: ek, ck: ck}
 	m.agg.Endpoints = foldRecords(c.Recs, seen, ek)
 	m.agg.Consumers = map[string]sd.EndpointMapping{}
 	m.agg.Interceptors = map[common.Interceptor]discovery.InterceptorAgg{}
@@ -1020,12 +1030,24 @@ func classifyBatchDependence(c kase, cutsX, cutsY []int, x, y discovery.Agg, ix,
 		// is checked unconditionally and is not waived.
 		return "C15-F1"
 	}
+	if isLostTerminal(ix, iy) {
+		return "C15-F3"
+	}
 	mx, err := modelRun(c, cutsX)
-	if err != nil || mx.silent > 0 || diffAgg(x, mx.agg, false) != "" {
+	if err != nil {
 		return ""
 	}
 	my, err := modelRun(c, cutsY)
-	if err != nil || my.silent > 0 || diffAgg(y, my.agg, false) != "" {
+	if err != nil {
+		return ""
+	}
+	if mx.miss+my.miss > 0 {
+		// the same tree operations hit a valueless terminal in the model's own
+		// tree instance: which sibling's value survives a merge is decided by
+		// map iteration order, so this case is subject to F3 as well
+		return "C15-F3"
+	}
+	if mx.silent+my.silent > 0 || diffAgg(x, mx.agg, false) != "" || diffAgg(y, my.agg, false) != "" {
 		return ""
 	}
 	// structural predicate: a re-keying took place, and every record the two
@@ -1056,6 +1078,14 @@ func classifyBatchDependence(c kase, cutsX, cutsY []int, x, y discovery.Agg, ix,
 }
 
 func isSilentConvergence(ix, iy runInfo) bool { return ix.silent+iy.silent > 0 }
+
+// isLostTerminal (C15-F3): a URL that had just been inserted (or a stored key
+// whose re-insertion failed on a parameter-name mismatch) was not found by
+// Lookup, because convergeNodesPaths gives the merged node the value of
+// whichever sibling comes first in map order — possibly none. NormalizeURL then
+// returns the URL unchanged (or the wildcard), the key is not re-keyed, and the
+// outcome differs from run to run.
+func isLostTerminal(ix, iy runInfo) bool { return ix.miss+iy.miss > 0 }
 
 // ---- the property -----------------------------------------------------------
 
@@ -1151,6 +1181,8 @@ func evaluate(c kase, dir string) (o outcome) {
 			msg := fmt.Sprintf("state file written by Run differs from the statistics computed for the same batches: %s", d)
 			if isSilentConvergence(o.infoB, o.infoS) {
 				o.attributed = append(o.attributed, attributed{"C15-F1", msg})
+			} else if isLostTerminal(o.infoB, o.infoS) {
+				o.attributed = append(o.attributed, attributed{"C15-F3", msg})
 			} else {
 				o.violation = fmt.Errorf("%s", msg)
 			}
@@ -1207,6 +1239,9 @@ func classify(r *ev.Recorder, c kase, o outcome) {
 		if o.infoA.rekeys+o.infoB.rekeys > 0 {
 			r.Class("threshold=50:rekey-after-convergence")
 		}
+	}
+	if o.info1.miss+o.infoA.miss+o.infoB.miss > 0 {
+		r.Class("lookup-miss-after-insert")
 	}
 	for _, a := range o.attributed {
 		r.Class("attributed-" + a.id)
@@ -1390,4 +1425,23 @@ func TestWitnessF1SilentConvergence(t *testing.T) {
 
 func TestWitnessF2ConstantBesideParameter(t *testing.T) {
 	runWitness(t, "C15-F2", witnessF2(2), witnessF2(productionThreshold))
+}
+
+// C15-F3. users/{id} (terminal, has a value) and v1/{p1} (inner node, no value)
+// are merged when api.com converges; the merged node keeps the value of the
+// sibling that happens to come first in map order. Re-keying the stored key
+// api.com/users/{id} cannot re-insert it (name mismatch with {_param_2}) and
+// Lookup misses it in about every second run, so the witness is repeated.
+func witnessF3() kase {
+	c := witnessCase(2, 1, []string{"api.com/users/0", "api.com/orders"})
+	c.Known = []string{"api.com/users/{id}", "api.com/v1/{p1}/items"}
+	return c
+}
+
+func TestWitnessF3LostTerminalValue(t *testing.T) {
+	cases := []kase{}
+	for i := 0; i < 200; i++ {
+		cases = append(cases, witnessF3())
+	}
+	runWitness(t, "C15-F3", cases...)
 }
